@@ -6,6 +6,10 @@ Case kinds (each replayable through execute):
          features inside it (parsed lines, Feature(...), read from a database): len(f) == end-start+1 and
          f.sequence(fasta[, use_strand=False]) == the model's slice of the in-memory reference (own complement table),
          fasta given as a path and as a pyfaidx.Fasta object
+  seq    (case["twins"]) the same on references holding records whose names are equal ignoring letter case (ctgA / ctga /
+         CTGA, chrX / chrx, non-ASCII case pairs) or differ by Unicode normalisation form only (NFC / NFD / compatibility
+         spellings), all of one length with independent bases: every feature gets the bases of the record named EXACTLY
+         like its seqid
   seqrw  2-4 versions of one FASTA file are written to the SAME path one after the other (other bases, other lengths /
          line widths; index file removed or left behind, file overwritten or replaced); after every rewrite
          f.sequence(path) must give the bases of the file as it is at the time of the call
@@ -21,6 +25,11 @@ Case kinds (each replayable through execute):
          five_prime_UTR, CDS / CDS_part); block and thick featuretype given as str and as list, thick names equal to /
          contained in / disjoint from / overlapping the block names: blocks and thick range come from exactly the
          children of the named type(s)
+  bed12  (case["look"]) transcripts whose children carry, next to the requested block / thick types, look-alike types:
+         letter-case twins (exon / EXON / Exon, CDS / cds) and twins differing exactly where the requested name has '_' or
+         '%' (coding_exon / coding-exon / codingXexon, five_prime_UTR / five-prime-UTR, ex%n / exon / exZZn): blocks and
+         thick range come from the children whose featuretype EQUALS a requested name; ValueError where only a look-alike
+         reaches the transcript boundary; single-block export where only look-alikes exist
   bed12  (case["deep"]) single-isoform genes: bed12(gene) whose block / thick features are level-2 children
          (gene > transcript > exon/CDS), and bed12(transcript) with CDS / UTR / exons attached through an intermediate
          feature (transcript > protein > CDS)
@@ -57,7 +66,13 @@ RULE = ("seq: references of 2-4 sequences of 1-3000 bases over ACGTN + IUPAC amb
         "65% as byte-identical lines without ID, 35% with one ID (GTF: exon_id) per copy, lines shuffled in half of the "
         "cases, 1-3 calls each (bed12 by id / Feature, to_bed12); reach: 1-3 spanning transcripts with CDS, first CDS "
         "start moved 1-300 before the transcript start and / or last CDS end 1-300 after its end (stop codon moved along), "
-        "and / or a UTR record before / after it, thick in {CDS, [CDS], [CDS, stop_codon]} or the thin choices")
+        "and / or a UTR record before / after it, thick in {CDS, [CDS], [CDS, stop_codon]} or the thin choices; "
+        "twins: 1-2 families of 2-4 look-alike record names (11 families: ASCII case, NFC/NFD/compatibility, non-ASCII case "
+        "pairs) of one length with independent bases + 0-1 ordinary record, file order random, 12 slices, origins line / "
+        "ctor / db; look: 1-3 GFF3 transcripts of 3-8 disjoint segments typed with the block name or one of its 3-5 "
+        "look-alikes (8 families; 18% with a look-alike as outermost segment), thick-type or look-alike pieces inside 60% of "
+        "the segments and look-alike pieces in gaps, 2-4 calls each: requested = the family name (or in 25% a look-alike "
+        "itself, 10-15% a list of the name and a twin) as str or list, by id / Feature, to_bed12 in 30%")
 REQUIRED = ["len(feature) checked", "sequence() by other spellings of the path compared", "sequence() by path compared", "sequence() by pyfaidx.Fasta object compared",
             "sequence() minus strand reverse-complemented", "sequence() minus strand with use_strand=False",
             "sequence(): features from a database", "bed12 calls by id", "bed12 calls by Feature", "bed12 lines compared",
@@ -96,7 +111,42 @@ REQUIRED = ["len(feature) checked", "sequence() by other spellings of the path c
             "bed12 reach: thickStart judged for a thick feature starting before the transcript",
             "bed12 reach: thickEnd judged for a thick feature ending after the transcript",
             "bed12 reach: lines compared, fmt=gff3", "bed12 reach: lines compared, fmt=gtf",
-            "bed12 reach: thin features reaching past the transcript (thickStart/thickEnd not judged, other fields judged)"]
+            "bed12 reach: thin features reaching past the transcript (thickStart/thickEnd not judged, other fields judged)",
+            "sequence(): features on a record whose name equals another record's up to letter case",
+            "sequence(): features on a record whose name equals another record's up to letter case, minus strand",
+            "sequence(): features on a record whose name equals another record's up to letter case, plus / unstranded strand",
+            "sequence(): features on a record whose name equals another record's up to letter case, features from a database",
+            "sequence(): features on a record whose name equals another record's up to letter case, features from a parsed line",
+            "sequence(): features on a record whose name equals another record's up to letter case, features from Feature(...)",
+            "sequence(): features on a record whose name equals another record's up to letter case, the twin holding other bases at start..end",
+            "sequence(): features on a record whose name equals another record's up to letter case, a twin coming later in the file",
+            "sequence(): features on a record whose name equals another record's up to letter case, a twin coming earlier in the file",
+            "sequence(): features on a record whose name equals another record's up to normalisation form",
+            "sequence(): features on a record whose name equals another record's up to normalisation form, minus strand",
+            "sequence(): features on a record whose name equals another record's up to normalisation form, plus / unstranded strand",
+            "sequence(): features on a record whose name equals another record's up to normalisation form, features from a database",
+            "sequence(): features on a record whose name equals another record's up to normalisation form, features from a parsed line",
+            "sequence(): features on a record whose name equals another record's up to normalisation form, features from Feature(...)",
+            "sequence(): features on a record whose name equals another record's up to normalisation form, the twin holding other bases at start..end",
+            "sequence(): features on a record whose name equals another record's up to normalisation form, a twin coming later in the file",
+            "sequence(): features on a record whose name equals another record's up to normalisation form, a twin coming earlier in the file",
+            "bed12 look-alike types: lines compared",
+            "bed12 look-alike types: calls by id",
+            "bed12 look-alike types: calls by Feature",
+            "bed12 look-alike types: blocks judged while a child differing from a block type by letter case only is present",
+            "bed12 look-alike types: blocks judged while a child differing from a block type by wildcard only is present",
+            "bed12 look-alike types: blocks judged while a child differing from a block type by letter case and wildcard only is present",
+            "bed12 look-alike types: thick range judged while a child differing from a thick type by letter case only is present",
+            "bed12 look-alike types: thick range judged while a child differing from a thick type by wildcard only is present",
+            "bed12 look-alike types: thick range judged while a look-alike child lies outside it",
+            "bed12 look-alike types: block featuretype given as str (look-alike child present)",
+            "bed12 look-alike types: block featuretype given as list (look-alike child present)",
+            "bed12 look-alike types: thick featuretype given as str (look-alike child present)",
+            "bed12 look-alike types: thick featuretype given as list (look-alike child present)",
+            "bed12 look-alike types: ValueError expected and raised",
+            "bed12 look-alike types: ValueError expected and raised while only a look-alike child reaches the transcript boundary",
+            "bed12 look-alike types: single-block exports while only look-alike children exist",
+            "bed12 look-alike types: to_bed12 lines compared"]
 
 REQUIRED_CLASSES = ["bed12 substring names layout=flat", "bed12 substring names layout=nested", "seqtwin order",
                     "seqtwin bases", "seqtwin move", "bed12 deep target=gene", "bed12 deep target=transcript via intermediate", "bed12 deep fmt=gtf",
@@ -104,6 +154,9 @@ REQUIRED_CLASSES = ["bed12 substring names layout=flat", "bed12 substring names 
                     "bed12 thick/thin past the transcript fmt=gff3", "bed12 thick/thin past the transcript fmt=gtf",
                     "bed12 dup: identical", "bed12 dup: distinct", "bed12 reach: CDS start", "bed12 reach: CDS end",
                     "bed12 reach: UTR start", "bed12 reach: UTR end",
+                    "seq look-alike record names origin=line", "seq look-alike record names origin=ctor",
+                    "seq look-alike record names origin=db", "bed12 look-alike types",
+                    "bed12 look-alike types: spanning", "bed12 look-alike types: look-alike at the boundary",
                     "seqobj as_raw=True", "seqobj as_raw=False", "single block by id", "bed12 fmt=gff3", "bed12 fmt=gtf", "blocks=0", "blocks=1", "blocks>=2", "non-spanning", "strand -", "strand +"]
 ASSUMPTIONS = [
     "'ascending order' = by start; children selected as blocks or thick features share a start only when they also share "
@@ -132,6 +185,9 @@ ASSUMPTIONS = [
     "argument names one type)",
     "seqtwin: both files are complete before the first call and are not touched afterwards; index files pyfaidx writes "
     "next to them are left where they are between the calls",
+    "'the named sequence' = the record whose name EQUALS feature.seqid (code point by code point); records whose names differ "
+    "in letter case or normalisation form are other sequences; such names are generated only in forms pyfaidx accepts as "
+    "distinct keys; 'block / thick features' of a call = children whose featuretype EQUALS one of the given names",
     "sequence(): features lie inside the named sequence; alphabet ACGTN plus the IUPAC ambiguity codes, both cases; complement = the standard IUPAC table",
 ]
 QUICK_SHARDS = 4
@@ -224,6 +280,8 @@ def run_seq(ctx, case):
                 ctx.violation(case, {"why": "len()/sequence() raised %s" % type(ex).__name__, "exception": repr(ex), "slice": sl})
                 return
             ctx.mon("len(feature) checked")
+            if case.get("twins"):
+                twin_counters(ctx, case, seqs, sl)
             if n != e - s + 1:
                 ctx.violation(case, {"why": "len(feature) != end-start+1", "slice": sl, "len": n})
                 return
@@ -255,6 +313,27 @@ def run_seq(ctx, case):
         for p in (path, path + ".fai"):
             if os.path.exists(p):
                 os.unlink(p)
+
+
+def twin_counters(ctx, case, seqs, sl):
+    """What a slice on a reference with look-alike record names exercised (the oracle is run_seq's: ref[name])."""
+    name, s, e, strand = sl
+    names = [r[0] for r in seqs]
+    own = dict((r[0], r[2]) for r in seqs)[name]
+    for rel in ("letter case", "normalisation form"):
+        twins = [r for r in seqs if M.name_relation(name, r[0]) == rel]
+        if not twins:
+            continue
+        pre = "sequence(): features on a record whose name equals another record's up to %s" % rel
+        ctx.mon(pre)
+        ctx.mon(pre + ", %s strand" % ("minus" if strand == "-" else "plus / unstranded"))
+        ctx.mon(pre + ", features from %s" % {"db": "a database", "line": "a parsed line", "ctor": "Feature(...)"}[case["origin"]])
+        if any(r[2][s - 1:e] != own[s - 1:e] for r in twins):
+            ctx.mon(pre + ", the twin holding other bases at start..end")
+        if any(names.index(r[0]) > names.index(name) for r in twins):
+            ctx.mon(pre + ", a twin coming later in the file")
+        if any(names.index(r[0]) < names.index(name) for r in twins):
+            ctx.mon(pre + ", a twin coming earlier in the file")
 
 
 # ---------------------------------------------------------------------------------
@@ -606,6 +685,12 @@ def one_call(ctx, case, db, ci, c):
             return dict(info, why="blocks do not span the feature: %s raised instead of ValueError" % type(raised).__name__,
                         exception=repr(raised))
         ctx.mon("bed12 ValueError expected and raised")
+        if case.get("look"):
+            ctx.mon("bed12 look-alike types: ValueError expected and raised")
+            both = M.select(t["children"], c["block"]) + M.lookalikes(t["children"], c["block"])
+            if both and min(x["start"] for x in both) == t["start"] and max(x["end"] for x in both) == t["end"]:
+                ctx.mon("bed12 look-alike types: ValueError expected and raised while only a look-alike child reaches the "
+                        "transcript boundary")
         if deep:
             ctx.mon("bed12 deep: ValueError expected and raised")
         if case.get("sub"):
@@ -664,6 +749,25 @@ def one_call(ctx, case, db, ci, c):
                     ctx.mon(pre + "thick range judged while a child of a containing/contained type name is present")
             if isinstance(c["block"], str) and any(x != c["block"] and (x in c["block"] or c["block"] in x) for x in M._types(c["thick"])):
                 ctx.mon(pre + "str block name contained in / containing the str or listed thick name")
+    if case.get("look"):
+        pre = "bed12 look-alike types: "
+        ctx.mon(pre + "lines compared")
+        ctx.mon(pre + "calls by %s" % ("id" if c["as"] == "id" else "Feature"))
+        for rel in sorted(M.lookalike_relations(t["children"], c["block"])):
+            ctx.mon(pre + "blocks judged while a child differing from a block type by %s only is present" % rel)
+            ctx.mon(pre + "block featuretype given as %s (look-alike child present)" % ("str" if isinstance(c["block"], str) else "list"))
+        if exp["thick_present"]:
+            for rel in sorted(M.lookalike_relations(t["children"], c["thick"])):
+                ctx.mon(pre + "thick range judged while a child differing from a thick type by %s only is present" % rel)
+                ctx.mon(pre + "thick featuretype given as %s (look-alike child present)" % ("str" if isinstance(c["thick"], str) else "list"))
+            looks = M.lookalikes(t["children"], c["thick"])
+            sel = M.select(t["children"], c["thick"])
+            if looks and (min(x["start"] for x in looks) < sel[0]["start"] or max(x["end"] for x in looks) > sel[-1]["end"]):
+                ctx.mon(pre + "thick range judged while a look-alike child lies outside it")
+        elif M.lookalikes(t["children"], c["thick"]):
+            ctx.mon(pre + "no child of the thick type, look-alike children present (thickStart/thickEnd not judged)")
+        if exp["single"] and M.lookalikes(t["children"], c["block"]):
+            ctx.mon(pre + "single-block exports while only look-alike children exist")
     if exp["thick_present"]:
         ctx.mon("bed12 thickStart/thickEnd judged")
     blocks_sel = M.select(t["children"], c["block"])
@@ -704,6 +808,8 @@ def one_call(ctx, case, db, ci, c):
             ctx.mon("to_bed12 lines compared (fields 1-3, 10-12)")
             if M.duplicate_kinds(blocks_sel):
                 ctx.mon("bed12 duplicated records: to_bed12 lines compared")
+            if case.get("look") and M.lookalikes(t["children"], c["block"]):
+                ctx.mon("bed12 look-alike types: to_bed12 lines compared")
             if why:
                 return dict(info, why="convert.to_bed12: " + why, detail=detail, got=out)
     return None
@@ -776,6 +882,24 @@ def run(ctx):
                  if rng.random() < 0.02 else None, cls="bed12 substring names")
         for lay in set(t["layout"] for t in case["transcripts"]):
             ctx.classes["bed12 substring names layout=" + lay] += 1
+    # 1e. references whose record names are equal ignoring letter case / normalisation form
+    for _ in range(ctx.budget(300, 9000)):
+        seqs = G.twin_name_genome(rng)
+        case = {"kind": "seq", "genome": seqs, "slices": G.slices(rng, seqs, 12), "origin": rng.choice(["line", "ctor", "db"]),
+                "twins": True}
+        execute(ctx, case)
+        ctx.case(case, True, sample=case if rng.random() < 0.01 else None, cls="seq look-alike record names origin=" + case["origin"])
+    # 2b'. bed12 with featuretypes that look alike (letter case; '_' / '%' in the requested name)
+    for _ in range(ctx.budget(700, 24000)):
+        case = G.lookalike_case(rng)
+        if not case["calls"]:
+            continue
+        execute(ctx, case)
+        classes, nontrivial = case_classes(case)
+        ctx.case(case, True, sample={"fmt": case["fmt"], "calls": case["calls"][:2], "text": annotation_text(case)[:600]}
+                 if rng.random() < 0.02 else None, cls="bed12 look-alike types")
+        for t in case["transcripts"]:
+            ctx.classes["bed12 look-alike types: " + t["shape"]] += 1
     # 2c. duplicated block records; thick / thin children reaching past the transcript
     for _ in range(ctx.budget(700, 24000)):
         which = "dup" if rng.random() < 0.5 else "reach"
